@@ -297,6 +297,11 @@ func expand(toks []templang.Tok) []templang.Tok {
 			out = append(out, templang.Tok{T: "open", N: el, G: t.G, Attrs: attrs}, templang.Tok{T: "deftext", N: t.N, G: "mustnot"}, templang.Tok{T: "close", N: el, G: "mustnot"})
 			continue
 		}
+		if t.T == "scall" {
+			// the call of a script template rendered as a component: <script>name(json of the argument)</script>
+			out = append(out, templang.Tok{T: "open", N: "script", G: t.G}, templang.Tok{T: "scalltext", N: t.N, G: "mustnot"}, templang.Tok{T: "close", N: "script", G: "mustnot"})
+			continue
+		}
 		if t.T == "raw" {
 			el := templang.RawElement(t.N)
 			out = append(out, templang.Tok{T: "open", N: el, G: t.G}, templang.Tok{T: "rawtext", N: t.N, G: "mustnot"}, templang.Tok{T: "close", N: el, G: "mustnot"})
@@ -329,6 +334,14 @@ func match(toks []templang.Tok, items []item) (ok bool, why string) {
 				return false, fmt.Sprintf("%s: expected text %q, found %s %q", where, want, it.kind, it.name+it.data)
 			}
 			c.off += len(want)
+		case "scalltext":
+			js, _ := json.Marshal(templang.ExprValues["E1"]) // HTML-safe JSON: < > & as \u00XX
+			want := c.bound[t.N] + "(" + string(js) + ")"
+			if it.kind != "text" || it.data != want || c.bound[t.N] == "" {
+				return false, fmt.Sprintf("%s: expected the call %q, found %s %q", where, want, it.kind, it.name+it.data)
+			}
+			c.i++
+			c.off = 0
 		case "deftext":
 			// the definition names itself (the id holds a hash of the body); the uses must agree with it
 			re := defPatterns[t.N]
